@@ -107,6 +107,29 @@ def _sum_atom(d, k, extent):
     return _SUM_BY_KEY[key](*(cs + [extent]))
 
 
+def _point_mass(f, k):
+    """f == If(k == a, x, 0) (possibly under ToReal) with a free of k: returns (a, x) else None"""
+    g = f
+    wrap = False
+    if z3.is_app_of(g, z3.Z3_OP_TO_REAL):
+        g, wrap = g.arg(0), True
+    if not z3.is_app_of(g, z3.Z3_OP_ITE):
+        return None
+    c, x, y = g.children()
+    if not ((z3.is_int_value(y) and y.as_long() == 0) or (z3.is_rational_value(y) and y.numerator_as_long() == 0)):
+        return None
+    if not z3.is_eq(c):
+        return None
+    l, r = c.children()
+    if l.eq(k) and not _contains(r, k):
+        a = r
+    elif r.eq(k) and not _contains(l, k):
+        a = l
+    else:
+        return None
+    return a, (z3.ToReal(x) if wrap else x)
+
+
 def mk_sum(body_fn, extent):
     """sum_{k=0}^{extent-1} body_fn(k), normalised by linearity: expanded into monomials, factors
     that do not depend on k pulled out, each remaining k-dependent product becomes one SUMF atom."""
@@ -141,10 +164,21 @@ def mk_sum(body_fn, extent):
             # canonical factor order that does not depend on term identities: by the text of each factor
             # (so commuted products of the same factors give the same atom with the same argument order)
             dep = sorted(dep, key=lambda f: f.sexpr())
-            d = dep[0]
-            for f in dep[1:]:
-                d = d * f
-            piece = _sum_atom(d, k, extent)
+            pm = next(((q, _point_mass(f, k)) for q, f in enumerate(dep) if _point_mass(f, k) is not None), None)
+            if pm is not None:
+                # sum_k If(k == a, x(k), 0) * rest(k) = If(0 <= a < extent, x(a) * rest(a), 0): an exact identity, no SUMF atom needed
+                q, (a, x) = pm
+                d = x
+                for f in dep[:q] + dep[q + 1:]:
+                    d = d * f
+                d = z3.substitute(d, (k, a))
+                zero = z3.RealVal(0) if d.sort() == z3.RealSort() else z3.IntVal(0)
+                piece = z3.If(z3.And(a >= 0, a < extent), d, zero)
+            else:
+                d = dep[0]
+                for f in dep[1:]:
+                    d = d * f
+                piece = _sum_atom(d, k, extent)
             for f in indep:
                 piece = f * piece
         total = piece if total is None else total + piece
